@@ -6,6 +6,10 @@ type Check struct {
 }
 
 var Checks = map[string]Check{
+	"C01": {Fn: CheckC01},
 	"C02": {Fn: CheckC02},
+	"C04": {Fn: CheckC04},
+	"C05": {Fn: CheckC05},
+	"C14": {Fn: CheckC14},
 	"C16": {Fn: CheckC16},
 }
